@@ -15,7 +15,7 @@ from pytenet.krylov import eigh_krylov, expm_krylov
 
 ID = 'C15'
 LEVEL = 'model_checking'
-RULE = ('every n<=N, 1<=m<=n+2, matrix kind, start kind, invariant-block size, map presentation; for the exponential every dt of '
+RULE = ('every n<=N, 1<=m<=n+2 and m in {2n+1, 3n+2}, matrix kind, start kind, invariant-block size, map presentation; for the exponential every dt of '
         'the palette and both values of the hermitian flag, for the eigensolver every numeig; non-trivial = n>=2')
 BUDGET = {'quick': 300, 'thorough': 2400}
 DTS = [0.3j, -0.7j, 0.2, 0.1 + 0.2j]
@@ -30,7 +30,7 @@ def _cases(N):
                     for how in kc.PRESENTATIONS:
                         if how == 'view' and kind not in ('reversal', 'identity'):
                             continue
-                        for m in range(1, n + 3):
+                        for m in list(range(1, n + 3)) + [2 * n + 1, 3 * n + 2]:
                             yield [n, m, kind, k, sk, how]
 
 
@@ -94,5 +94,5 @@ def sig(case):
 def spaces(tier, seed):
     N = 10 if tier == "quick" else 12
     return [Space('krylov_approximations', core.chunked(_cases(N), 100), run_case=run_case, sig=sig,
-                  bounds={'n<=': N, 'm': '1..n+2', 'dt': [str(x) for x in DTS], 'matrix_kinds': kc.MATRIX_KINDS_H + kc.MATRIX_KINDS_G,
+                  bounds={'n<=': N, 'm': '1..n+2, 2n+1, 3n+2', 'dt': [str(x) for x in DTS], 'matrix_kinds': kc.MATRIX_KINDS_H + kc.MATRIX_KINDS_G,
                           'presentations': kc.PRESENTATIONS})]
